@@ -511,10 +511,14 @@ class VM:
                 props.insert(0, (key, kind, value))
             for key, kind, value in props:
                 key_str = self._to_string(key) if not isinstance(key, str) else key
+                # A later definition of a key replaces an earlier one of the
+                # other sort (data / accessor); the key keeps its position
                 if kind == "get":
                     obj.define_getter(key_str, value)
+                    obj._properties.pop(key_str, None)
                 elif kind == "set":
                     obj.define_setter(key_str, value)
+                    obj._properties.pop(key_str, None)
                 elif key_str == "__proto__" and kind == "init":
                     # __proto__ in object literal sets the prototype
                     if value is NULL or value is None:
@@ -524,6 +528,8 @@ class VM:
                         obj._prototype = value
                 else:
                     obj.set(key_str, value)
+                    obj._getters.pop(key_str, None)
+                    obj._setters.pop(key_str, None)
             self.stack.append(obj)
 
         elif op == OpCode.BUILD_REGEX:
